@@ -113,11 +113,19 @@ def frac_str(x) -> str:
     return str(fr.numerator) if fr.denominator == 1 else f"{fr.numerator}/{fr.denominator}"
 
 
+class CaseError(Exception):
+    """the generated case itself is malformed (never attributed to the code under test)"""
+
+
 def to_float(s):
     """case number (str Fraction | 'nan' | 'inf' | '-inf' | int) -> Python float"""
     if isinstance(s, str) and s in ("nan", "inf", "-inf"):
         return float(s)
-    return float(Fraction(s))
+    fr = Fraction(s)
+    f = float(fr)
+    if Fraction(f) != fr:
+        raise CaseError(f"case number {s} is not exactly representable in binary64")
+    return f
 
 
 # --------------------------------------------------------------------------- arrays for the real code
